@@ -290,16 +290,6 @@ func extractObs(p *gojson.Path, doc []byte) string {
 
 // frozen classes of the recorded evaluation findings
 func classifyC20(printed string, steps []step, doc string) string {
-	for _, s := range steps {
-		if s.kind == "desc" {
-			return "RecursiveDescentShallow"
-		}
-	}
-	for i, s := range steps {
-		if s.kind == "all" && i+1 < len(steps) {
-			return "WildcardThenSelector"
-		}
-	}
 	if strings.Contains(doc, `"a":1,"a":2`) {
 		return "PathDuplicateKey"
 	}
@@ -373,20 +363,6 @@ func runC20(o *Out) {
 				continue
 			}
 			if got != want {
-				// an error where the reference selects nothing is tolerated as "no match"
-				if got == "E" && want == "O[]" {
-					o.hist("extract", "error-for-no-match")
-					continue
-				}
-				sel2 := refEval(rv, steps, true)
-				parts2 := make([]string, len(sel2))
-				for i, x := range sel2 {
-					parts2[i] = renderOrdered(x)
-				}
-				if got == "O["+strings.Join(parts2, ",")+"]" {
-					o.known("SelectorOnScalar", fmt.Sprintf("%s on %s: got %s want %s", ps, doc, got, want))
-					continue
-				}
 				if cls := classifyC20(printed, steps, doc); cls != "" {
 					o.known(cls, fmt.Sprintf("%s on %s: got %s want %s", ps, doc, got, want))
 					continue
